@@ -372,6 +372,58 @@ fn one_case(ctx: &Ctx, case: u64, l: &mut Local) {
             }
         }
     }
+    // ---- issuer-signed JWTs that carry an `aud` claim and are outside their window: whatever the
+    // verifier does about audiences, the window still applies
+    for (name, exp, nbf) in [("expired", Some(t0 - 7200), None), ("nbf-future", Some(t0 + 2 * 86_400), Some(t0 + 86_400)), ("exp-absent", None, None)] {
+        for aud in [json!("https://rp.example.org"), json!(["a", "b"]), json!([]), json!("")] {
+            let mut p = base.clone();
+            p.remove("exp");
+            p.remove("nbf");
+            p.insert("aud".into(), aud.clone());
+            if let Some(e) = exp {
+                p.insert("exp".into(), json!(e));
+            }
+            if let Some(n) = nbf {
+                p.insert("nbf".into(), json!(n));
+            }
+            let sd = Parts { jwt: api::sign_payload(cfg.alg, 0, &Value::Object(p), None), disclosures: issued.parts.disclosures.clone(), kb: None };
+            if let Some(enc) = sd.encode(fmt, 0) {
+                let v = api::verify(&enc, &resolver, None, fmt);
+                l.evals += 1;
+                let which = if name == "nbf-future" { "nbf" } else { "exp" };
+                match &v.out {
+                    pn @ Outcome::Panic(..) => l.violate(Violation { subcheck: "panic".into(), class: format!("{name} with aud"), observed: pn.panic_signature().unwrap(), case, detail: json!({"aud": aud}) }),
+                    Outcome::Ok(_) => l.violate(Violation { subcheck: format!("accepted-outside-window-{which}"), class: format!("{name}, issuer-signed JWT carries an aud claim"), observed: "Ok".into(), case, detail: json!({"config": cfg.describe(), "aud": aud, "t": t0}) }),
+                    Outcome::Err(_) => l.count(&format!("must-reject.{which}.rejected")),
+                }
+            }
+        }
+    }
+    // ---- JSON only: RFC 7797 style documents (protected header b64:false, crit:["b64"], payload member
+    // holding raw JSON text, signature over header "." text) with exp negative / past / absent
+    if fmt == Fmt::Json {
+        for (name, expv) in [("negative", Some(json!(-5))), ("past", Some(json!(t0 - 7200))), ("absent", None), ("negative-large", Some(json!(i64::MIN)))] {
+            let mut p = base.clone();
+            p.remove("exp");
+            p.remove("nbf");
+            if let Some(e) = &expv {
+                p.insert("exp".into(), e.clone());
+            }
+            let text = Value::Object(p.clone()).to_string();
+            let hdr = crate::model::b64e(json!({"alg": cfg.alg.name(), "b64": false, "crit": ["b64"]}).to_string().as_bytes());
+            let sig = jsonwebtoken::crypto::sign(format!("{hdr}.{text}").as_bytes(), &crate::keys::issuer_enc(cfg.alg, 0), cfg.alg.jwt()).unwrap_or_default();
+            for payload_member in [json!(text), Value::Object(p.clone())] {
+                let doc = json!({"protected": hdr, "payload": payload_member, "signature": sig, "disclosures": issued.parts.disclosures}).to_string();
+                let v = api::verify(&doc, &resolver, None, fmt);
+                l.evals += 1;
+                match &v.out {
+                    pn @ Outcome::Panic(..) => l.violate(Violation { subcheck: "panic".into(), class: format!("unencoded payload, exp {name}"), observed: pn.panic_signature().unwrap(), case, detail: json!({"document": doc}) }),
+                    Outcome::Ok(_) => l.violate(Violation { subcheck: "accepted-outside-window-exp".into(), class: format!("unencoded-payload JSON document (b64:false), exp {name}"), observed: "Ok".into(), case, detail: json!({"config": cfg.describe(), "document": doc}) }),
+                    Outcome::Err(_) => l.count("must-reject.exp.rejected"),
+                }
+            }
+        }
+    }
     // ---- a temporal claim written TWICE in the signed payload text (RFC 7519 §4: reject, or use the
     // lexically last one): whenever the last one is outside the window the token must be refused
     {
@@ -466,6 +518,15 @@ fn one_case(ctx: &Ctx, case: u64, l: &mut Local) {
             let mut p = base.clone();
             p.remove("exp");
             p.remove("nbf");
+            // the confirmed key may itself carry members called exp / nbf / iat (here: long past, far
+            // ahead): they say nothing about the CREDENTIAL's window
+            if case % 3 == 0 {
+                if let Some(j) = p.get_mut("cnf").and_then(|c| c.get_mut("jwk")).and_then(Value::as_object_mut) {
+                    j.insert("exp".into(), json!(1_000_000_000u64));
+                    j.insert("nbf".into(), json!(4_000_000_000u64));
+                    j.insert("iat".into(), json!(1));
+                }
+            }
             if let Some(e) = exp {
                 p.insert("exp".into(), json!(e));
             }
